@@ -24,7 +24,7 @@ def correspondence(ctx):
     rng = ctx.rng
     drv = common.Driver("drv_c19")
     n_small = 400 if ctx.thorough else 24
-    n_big = 6 if ctx.thorough else 1
+    n_big = 8 if ctx.thorough else 2
     n_gz = 40 if ctx.thorough else 6
     with Scratch() as scratch:
         tris = [(Triangle([]), {"kind": "empty", "slices": 0, "cells": 0, "keys": 0})]
